@@ -13,7 +13,7 @@ func init() {
 		Decided: "Database.Recover mutates nothing (revert, tree.init, history truncation) before the modifyAllowed and Recoverable(root) gates; the key-value store is synced (error tested) before either history freezer is truncated from the head; diskLayer.revert rejects a foreign history and id 0 first, marks the layer stale before any mutation, waits for the frozen buffer (error tested) before the batch, and writes nodes, states, persistent state id and snapshot root through the one batch it then writes; Recoverable returns true only as `meta.parent == root` after id!=nil and id<bottom id.",
 		NotDec: "that applying a state history reproduces the old flat state and trie nodes (value-level).",
 		Rules:  "DOM/ORDER must-pass-through per mutation call site, ATOMIC same-batch argument identity, in (*Database).Recover, (*Database).Recoverable, (*diskLayer).revert",
-		MinObs: 20,
+		MinObs: 55,
 		Run:    c17,
 	})
 }
